@@ -63,7 +63,9 @@ NLEAF = 12
 
 
 def generics(sync):
-    b = "Send + Sync" if sync else "Send"
+    # the Sync obligations bound children and outputs by Sync ALONE (the literal statement:
+    # "Sync whenever they are Sync"); FCV_SYNC_WITH_SEND=1 gives the weaker Send + Sync leaves
+    b = ("Send + Sync" if os.environ.get("FCV_SYNC_WITH_SEND") else "Sync") if sync else "Send"
     parts = []
     wh = []
     for i in range(NLEAF):
@@ -607,15 +609,15 @@ def main(tier, seed):
         "coverage": {
             "evaluations": total,
             "distinct_nontrivial": len(distinct_nt),
-            "rule": "generated programs: one generic obligation `fn ob<F: Future + Send (+ Sync), ..>() { assert_send/assert_sync::<TYPE>() }` per type expression over the crate's public constructors (stage A: every constructor x container x array length {1,2,3,5,12} / Vec / tuple arity 0..12, projection form and direct public names; stage B: random nestings of depth 2-3 from VERIF_SEED), plus one generic function per (source, adapter stack of depth <= 3, terminal) asserting that the opaque for_each / try_for_each / collect future is Send; each must type-check with cargo check against /repo; non-trivial = nesting depth >= 2, or arity >= 4, or an adapter stack of depth >= 2; distinct = distinct (configuration, trait, type text)",
+            "rule": "generated programs: one generic obligation `fn ob<F: Future + Send (resp. F: Future + Sync), ..>() { assert_send/assert_sync::<TYPE>() }` per type expression over the crate's public constructors (stage A: every constructor x container x array length {1,2,3,5,12} / Vec / tuple arity 0..12, projection form and direct public names; stage B: random nestings of depth 2-3 from VERIF_SEED), plus one generic function per (source, adapter stack of depth <= 3, terminal) asserting that the opaque for_each / try_for_each / collect future is Send; each must type-check with cargo check against /repo; non-trivial = nesting depth >= 2, or arity >= 4, or an adapter stack of depth >= 2; distinct = distinct (configuration, trait, type text)",
             "samples": samples,
             "per_config": per_cfg,
             "negative_control": "array::Join<Ready<Rc<u8>>, 3>: Send is rejected by rustc in every configuration checked",
             "exhaustive": False,
         },
         "assumptions": [
-            "auto traits are structural, so an obligation over type parameters bounded Send (+ Sync) that rustc accepts holds for every instantiation; sampling is only over constructors, arities and nestings",
-            "the Sync obligations give children and outputs Send + Sync (not Sync alone)",
+            "auto traits are structural, so an obligation over type parameters bounded Send (resp. Sync) that rustc accepts holds for every instantiation; sampling is only over constructors, arities and nestings",
+            "the Sync obligations bound children and outputs by Sync alone (not Send + Sync), the Send obligations by Send alone",
             "rustc's trait solver is trusted",
         ],
         "wall_s": round(wall, 3),
